@@ -2,6 +2,7 @@ package ir
 
 import (
 	"fmt"
+	"sort"
 )
 
 // InlineUserFunctions rewrites the module so that every user-defined helper
@@ -147,6 +148,7 @@ func collectCalleeHandles(stmts Block) []FunctionHandle {
 	for h := range seen {
 		out = append(out, h)
 	}
+	sort.Slice(out, func(i, j int) bool { return out[i] < out[j] })
 	return out
 }
 
